@@ -52,7 +52,13 @@ class Ob:
 
 
 def _short(x, n=300):
-    s = x if isinstance(x, str) else json.dumps(x, default=str, sort_keys=True)
+    if isinstance(x, str):
+        s = x
+    else:
+        try:
+            s = json.dumps(x, default=str, sort_keys=True)
+        except TypeError:
+            s = repr(x)
     return s if len(s) <= n else s[:n - 3] + "..."
 
 
